@@ -14,3 +14,4 @@ import RosuModel.Props.C04Ieee
 import RosuModel.Props.C04DecodedIeee
 import RosuModel.Props.C04DecodedObjects
 import RosuModel.Props.C04DecodedObjectsToy
+import RosuModel.Props.C04DecodedObjectsIeee
